@@ -64,6 +64,11 @@ def distance(a, b):
         # d = | (q - p) * n |
         # where n is a vector orthogonal to both lines and with length 1!
         # We can achieve this by using the normalized cross product
+        if a.dv.parallel(b.dv):
+            # The cross product of parallel directions is the zero vector,
+            # which cannot be normalized. Every point of a has the same
+            # distance to b, so we just pick one point
+            return distance(Point(a.sv), b)
         normale = a.dv.cross(b.dv).normalized()
         return abs((b.sv - a.sv) * normale)
 
